@@ -16,22 +16,30 @@ Cls(n) == {s \in ClsScns(n) : ClsOK(s)}
 
 (* ------------------------------ standard-library menu ------------------------------ *)
 \* kind = how pickle.Pickler.save treats the type; fb = object.__reduce_ex__ can pickle it without copyreg's table
-MenuOf(kind, items, fb) == {[kind |-> kind, item |-> it, fb |-> fb] : it \in items}
-Menu == MenuOf("atomic", {"none", "true", "int", "bigint", "float", "str", "bytes"}, TRUE)
-        \cup MenuOf("container", {"list", "tuple", "dict", "set", "frozenset", "bytearray", "nested"}, TRUE)
-        \cup MenuOf("byref", {"function", "builtin_function", "class", "exception_class", "namedtuple_class", "dataclass_class"}, TRUE)
-        \cup MenuOf("meta", {"enum_class", "abc_class"}, TRUE)
-        \cup MenuOf("inst", {"datetime", "date", "timedelta", "timezone", "decimal", "fraction", "enum_member", "intflag",
-                             "dataclass", "frozen_dataclass", "slots_dataclass", "namedtuple", "exception", "oserror",
-                             "custom_exception", "ordereddict", "defaultdict", "deque", "counter", "range", "slice",
-                             "uuid", "path", "partial", "bound_method", "simplenamespace", "getnewargs", "slots_class",
-                             "reduce_class", "getstate_class", "kwgetstate_class", "array"}, TRUE)
-        \cup MenuOf("copyreg", {"re_pattern", "re_pattern_bytes", "union_type"}, FALSE)
-        \cup MenuOf("copyreg", {"complex"}, TRUE)
+\* fbsame = ... and gives the same result as the registered reducer; lowfails = pickle itself refuses it at protocols 0 and 1
+MenuOf(kind, items, fb, fbsame, lowfails) == {[kind |-> kind, item |-> it, fb |-> fb, fbsame |-> fbsame, lowfails |-> lowfails] : it \in items}
+Menu == UNION {
+        MenuOf("atomic", {"none", "true", "int", "bigint", "float", "str", "bytes"}, TRUE, TRUE, FALSE),
+        MenuOf("container", {"list", "tuple", "dict", "set", "frozenset", "bytearray", "nested"}, TRUE, TRUE, FALSE),
+        MenuOf("byref", {"function", "builtin_function", "class", "exception_class", "namedtuple_class", "dataclass_class"}, TRUE, TRUE, FALSE),
+        MenuOf("meta", {"enum_class", "abc_class"}, TRUE, TRUE, FALSE),
+        MenuOf("inst", {"datetime", "date", "timedelta", "timezone", "decimal", "fraction", "enum_member", "intflag",
+                        "dataclass", "frozen_dataclass", "namedtuple", "exception", "oserror",
+                        "custom_exception", "ordereddict", "defaultdict", "deque", "counter", "range", "slice",
+                        "uuid", "path", "partial", "bound_method", "simplenamespace", "getnewargs", "interned_newargs",
+                        "reduce_class", "getstate_class", "kwgetstate_class", "array"}, TRUE, TRUE, FALSE),
+        \* __slots__ without __getstate__: pickle raises TypeError at protocols 0 and 1
+        MenuOf("inst", {"slots_class", "slots_dataclass"}, TRUE, TRUE, TRUE),
+        MenuOf("copyreg", {"re_pattern", "re_pattern_bytes", "union_type"}, FALSE, FALSE, FALSE),
+        MenuOf("copyreg", {"complex"}, TRUE, TRUE, FALSE),
+        \* registered with copyreg.pickle() after pyworkers.remote_pickle was imported
+        MenuOf("copyreg_late", {"late_class"}, TRUE, FALSE, FALSE),
+        MenuOf("copyreg_late", {"code_type"}, FALSE, FALSE, FALSE)}
 Wraps == {"bare", "list", "attr", "shared", "tuple_key"}
 \* after = "fail": the round trip happens on a thread whose previous remote_pickle.loads raised
-Leaf == {[t |-> "leaf", kind |-> m.kind, item |-> m.item, fb |-> m.fb, wrap |-> w, op |-> "rp", remote |-> rm, after |-> af] :
-           m \in Menu, w \in Wraps, rm \in BOOLEAN, af \in {"none", "fail"}}
+Leaf == {[t |-> "leaf", kind |-> m.kind, item |-> m.item, fb |-> m.fb, fbsame |-> m.fbsame, lowfails |-> m.lowfails, wrap |-> w,
+          op |-> "rp", remote |-> rm, after |-> af, pclass |-> pcl] :
+           m \in Menu, w \in Wraps, rm \in BOOLEAN, af \in {"none", "fail"}, pcl \in {"low", "high"}}
 
 (* ------------------------------ object graphs ------------------------------ *)
 RECURSIVE AncSelf(_, _)
